@@ -135,6 +135,11 @@ class Printer:
         out.append(('I', s, origin))
 
     def punct(self, out, text, origin='input'):
+        if text in ('>>', '<<'):
+            # quote! lexes `>>` in `AsRef<dyn X<T>>>` as one shift token; proc_macro hands out two joint `>`
+            out.append(('P', text[0], origin))
+            out.append(('P', text[0], origin))
+            return
         out.append(('P', text, origin))
 
     def tok(self, out, name, origin='input'):
@@ -586,6 +591,33 @@ class Printer:
         if v.variant == 'Type':
             self.punct(out, '->')
             self.node(v.fields[1], out)
+
+    def p_TraitItem(self, v, out):
+        self.node(v.fields[0], out)
+
+    def p_ItemTrait(self, v, out):
+        self.attrs(v, out)
+        self.node(self.g(v, 'vis'), out)
+        self.opt(v, 'unsafety', out)
+        self.opt(v, 'auto_token', out)
+        self.ident(out, 'trait')
+        self.node(self.g(v, 'ident'), out)
+        gen = self.g(v, 'generics')
+        self.node(gen, out)
+        sup = self.g(v, 'supertraits')
+        if isinstance(sup, Sym):
+            out.append(('ATOM', sup.key + '+colon', 'input'))
+        elif sup.items:
+            self.punct(out, ':')
+            self.punctuated(sup, out, 'Plus')
+        if not isinstance(gen, Sym):
+            self.node(self.g(gen, 'where_clause'), out)
+        inner = []
+        items = self.g(v, 'items')
+        if not self.lazy(items, inner):
+            for it in items.items:
+                self.node(it, inner)
+        self.group(out, '{', inner)
 
     def p_TraitItemFn(self, v, out):
         self.attrs(v, out)
